@@ -261,7 +261,7 @@ func (r *renderer) stmt(s *Stmt, depth int) {
 	case sJumpE:
 		r.emit(depth, o+"jump {"+renderExpr(s.E)+"}"+c, true)
 	case sStop:
-		r.emit(depth, o+"stop"+c, true)
+		r.emit(depth, o+[]string{"stop", "stop now", "stop {1 + 1}", "stop \"why\" 2"}[s.Spell%4]+c, true)
 	case sCall:
 		r.emit(depth, o+"call "+renderExpr(s.E)+c, true)
 	case sCommand:
